@@ -30,6 +30,11 @@
                                              transport accepted; method CONNECT: the upstream proxy's reply to a
                                              client CONNECT, `handleConnectRequest`)
 
+   dialloop route=<direct|transport|dialvia|socks> attempts=<int> out=<c|refused|reset|timeout|deadline|canceled>:<ctx done 0|1>,… [variant=code|break|stop]
+                                          →  conn | error <status> <label-hex> <refused|reset|timeout|deadline|canceled> | panic
+                                             (`dialContext`: the dialer's retry loop and the connection tracker; past the end of
+                                             `out` an attempt runs into the dialer's own time-out)
+
    kinds:   op:<dial|read|write|remote|local|proxyconnect>:<0|1>  op-chain:<outer>:<inner+inner…>:<0|1>  dns:<0|1>  refused  reset  eof  tls-record:<0|1>
             tls-cert  tls-ech  tls-alert  tls-alert-remote  tls-alert-local  tls-generic  tls-hs-timeout
             martian:<n>  auth  deny  prohibited  canceled  deadline  connect-rejected:<n>
@@ -43,6 +48,7 @@
             prefix <id> <framing> <bytes> <terminated> <fin|rst> | close
 -/
 import FwdVerif.Model.C12
+import FwdVerif.Model.C12Dial
 import FwdVerif.Driver.Req
 
 namespace FwdVerif
@@ -52,7 +58,8 @@ open Wire
 
 def decodeNetOp : String → Option NetOp
   | "dial" => some .dial | "read" => some .read | "write" => some .write
-  | "remote" => some .remoteError | "local" => some .localError | "proxyconnect" => some .proxyconnect | _ => none
+  | "remote" => some .remoteError | "local" => some .localError | "proxyconnect" => some .proxyconnect
+  | "socks" => some .socksConnect | _ => none
 
 def decodeKind (s : String) : Option ErrKind :=
   match s.splitOn ":" with
@@ -221,7 +228,42 @@ def holdsReason (ex : Exchange) (o : ClientObs) : String :=
     | .prefixThenClose .. => "truncated-message-parses-as-complete"
     | .cleanClose => "?"
 
+def decodeDialErr : String → Option DialErr
+  | "refused" => some .refused | "reset" => some .reset | "timeout" => some .timeout
+  | "deadline" => some .ctxDeadline | "canceled" => some .ctxCanceled | _ => none
+
+def encodeDialErr : DialErr → String
+  | .refused => "refused" | .reset => "reset" | .timeout => "timeout"
+  | .ctxDeadline => "deadline" | .ctxCanceled => "canceled"
+
+def decodeAttempt (s : String) : Option Attempt :=
+  match s.splitOn ":" with
+  | ["c", d] => do some ⟨.conn 1, ← boolOf d⟩
+  | [e, d] => do some ⟨.fail (← decodeDialErr e), ← boolOf d⟩
+  | _ => none
+
+def decodeRoute : String → Option DialRoute
+  | "direct" => some .direct | "transport" => some .transportProxy
+  | "dialvia" => some .dialviaHTTP | "socks" => some .dialviaSOCKS | _ => none
+
 def handle : List String → String
+  | "dialloop" :: toks =>
+    let r? : Option String := do
+      let r ← decodeRoute (kvD toks "route" "direct")
+      let n ← intOf (kvD toks "attempts" "1")
+      let out ← (splitList (kvD toks "out" "~")).mapM decodeAttempt
+      let res ← match kvD toks "variant" "code" with
+        | "code" => some (dialLoop n (scriptOf out))
+        | "break" => some (dialLoopBreak n (scriptOf out))
+        | "stop" => some (dialLoopStop n (scriptOf out))
+        | _ => none
+      match tracked res with
+      | .conn _ => some "conn"
+      | .panic => some "panic"
+      | .error e =>
+        let v := classify (dialErrKind r e)
+        some s!"error {v.1} {hexOfBytes (b v.2)} {encodeDialErr e}"
+    r?.getD "bad-op"
   | ["classify", k] =>
     match decodeKind k with
     | none => "bad-op"
